@@ -659,3 +659,193 @@ def ob_g(ob):
             ob.verdict(v2, "g:probabilities in [0,1], row sum <= 1 (trajectory %d)" % b)
     a_, b_ = z3.Reals("a b")
     expect_refuted(ob, a_ + b_ <= 1, [a_ >= 0, b_ >= 0, a_ <= 1, b_ <= 1], "twin: unnormalised probabilities can exceed a row sum of one", "lra")
+
+
+# ------------------------------------------------------------------------------------------------------------------------
+# h: nonadiabatic coupling vectors: derivative operators of nac.py vs the exact derivative of the Fock matrix
+# ------------------------------------------------------------------------------------------------------------------------
+def _nac_setup(species, symbolic=True, seed=3):
+    """real Parser layout; derivative blocks of overlap*beta, core attraction (upper triangles) and two-electron integrals,
+    the ground-state density and a symmetrised transition density either symbolic or random numbers"""
+    from .C01 import _layout, _phys
+    from .C06 import _sym_density
+
+    mol, const, nmol, molsize = _layout(species, False)
+    n = 4 * molsize
+    phys = _phys(species)
+    npairs = mol.idxi.shape[0]
+    Z0 = z3.RealVal(0)
+    g = torch.Generator().manual_seed(seed)
+    rnd = lambda: float(torch.rand(1, generator=g)) - 0.5
+    mk = (lambda name: z3.Real(name)) if symbolic else (lambda name: rnd())
+    zero = Z0 if symbolic else 0.0
+    dt = object if symbolic else float
+    wx = np.full((npairs, 3, 10, 10), zero, dtype=dt)
+    ovx = np.full((npairs, 3, 4, 4), zero, dtype=dt)
+    e1bx = np.full((npairs, 3, 4, 4), zero, dtype=dt)
+    e2ax = np.full((npairs, 3, 4, 4), zero, dtype=dt)
+    for p in range(npairs):
+        na = 4 if int(mol.ni[p]) > 1 else 1
+        nb = 4 if int(mol.nj[p]) > 1 else 1
+        for d in range(3):
+            for k in range(10 if na == 4 else 1):
+                for l in range(10 if nb == 4 else 1):
+                    wx[p, d, k, l] = mk("wx%d_%d_%d_%d" % (p, d, k, l))
+            for mu in range(na):
+                for la in range(nb):
+                    ovx[p, d, mu, la] = mk("ov%d_%d_%d_%d" % (p, d, mu, la))
+            for mu in range(na):
+                for nu in range(mu, na):
+                    e1bx[p, d, mu, nu] = mk("e1b%d_%d_%d_%d" % (p, d, mu, nu))
+            for mu in range(nb):
+                for nu in range(mu, nb):
+                    e2ax[p, d, mu, nu] = mk("e2a%d_%d_%d_%d" % (p, d, mu, nu))
+    if symbolic:
+        P = _sym_density("P", nmol, n, phys)
+        B = _sym_density("B", nmol, n, phys)
+    else:
+        P = np.zeros((nmol, n, n))
+        B = np.zeros((nmol, n, n))
+        for b in range(nmol):
+            for ii, i in enumerate(phys[b]):
+                for j in phys[b][ii:]:
+                    P[b, i, j] = P[b, j, i] = rnd()
+                    B[b, i, j] = B[b, j, i] = rnd()
+    return mol, const, nmol, molsize, n, phys, npairs, wx, ovx, e1bx, e2ax, P, B
+
+
+def _nac_code(mol, nmol, molsize, n, wx, ovx, e1bx, e2ax, P, B, wrap):
+    """real _build_nac_derivative_operators + _contract_nac_density_batch with the integral-derivative routines replaced by
+    recorders that hand out the given derivative blocks"""
+    from seqm.seqm_functions import nac as NAC
+
+    saved = (NAC.overlap_der_finiteDiff, NAC.w_der)
+
+    def ovstub(overlap_x, *a, **k):
+        overlap_x[...] = wrap(ovx.copy())
+
+    def wderstub(const_, Z_, tore_, ni_, nj_, w_x, *a, **k):
+        w_x[...] = wrap(wx.copy())
+        return wrap(e1bx.copy()), wrap(e2ax.copy())
+
+    NAC.overlap_der_finiteDiff, NAC.w_der = ovstub, wderstub
+    try:
+        blk = lambda X: wrap(np.ascontiguousarray(X.reshape(nmol, molsize, 4, molsize, 4).transpose(0, 1, 3, 2, 4).reshape(nmol * molsize * molsize, 4, 4)))
+        ops = NAC._build_nac_derivative_operators(mol, blk(P), "ri", "riXH", torch.float64, torch.device("cpu"))
+        Bb = blk(B)
+        Bb = Bb.reshape(nmol * molsize * molsize, 1, 4, 4) if hasattr(Bb, "reshape") else Bb
+        return NAC._contract_nac_density_batch(mol, Bb, *ops, nmol, molsize)
+    finally:
+        NAC.overlap_der_finiteDiff, NAC.w_der = saved
+
+
+def replay_nac_operators(species):
+    """float64: the real NAC operator assembly + contraction on random derivative blocks vs a central finite difference of
+    sum_{mu nu} B_{mu nu} F_{mu nu} along the one-parameter family H(t) = H + t H', w(t) = w + t w' (density held fixed),
+    F from the real fock()"""
+    from seqm.seqm_functions.fock import fock
+    from seqm.seqm_functions.hcore import hcore
+    from .common import quiet
+
+    mol, const, nmol, molsize, n, phys, npairs, wx, ovx, e1bx, e2ax, P, B = _nac_setup(species, symbolic=False)
+    T = lambda a: torch.tensor(a, dtype=torch.float64)
+    got = _nac_code(mol, nmol, molsize, n, wx, ovx, e1bx, e2ax, P, B, T)  # (nmol, 1, molsize, 3)
+    with quiet():
+        M0, w0, *_ = hcore(mol)
+    M0, w0 = M0.detach().double(), w0.detach().double()
+    pr = mol.parameters
+    maskd, mask = mol.maskd.tolist(), mol.mask.tolist()
+    natoms = mol.Z.shape[0]
+    real_atoms = torch.arange(nmol * molsize)[mol.species.reshape(-1) > 0].tolist()
+    worst = 0.0
+    for a in range(natoms):
+        for d in range(3):
+            Mt, wt = torch.zeros_like(M0), torch.zeros_like(w0)
+            for p in range(npairs):
+                s = 1 if int(mol.idxi[p]) == a else (-1 if int(mol.idxj[p]) == a else 0)
+                if s == 0:
+                    continue
+                bi, bj, bo = maskd[int(mol.idxi[p])], maskd[int(mol.idxj[p])], mask[p]
+                Mt[bi] += s * T(e1bx[p, d])
+                Mt[bj] += s * T(e2ax[p, d])
+                Mt[bo] += s * T(ovx[p, d]) / 2
+                wt[p] += s * T(wx[p, d])
+            vals = []
+            for h in (1e-4, -1e-4):
+                F = fock(nmol, molsize, T(P), M0 + h * Mt, mol.maskd, mol.mask, mol.idxi, mol.idxj, w0 + h * wt, torch.tensor([0]), pr["g_ss"], pr["g_pp"], pr["g_sp"], pr["g_p2"], pr["h_sp"], "AM1", None, None, None, mol.Z, None, None)
+                vals.append((T(B) * F).sum().item())
+            fd = (vals[0] - vals[1]) / 2e-4
+            row = real_atoms[a]
+            worst = max(worst, abs(got[row // molsize, 0, row % molsize, d].item() - fd))
+    print("replay NAC operators %s: max |code - d/dt sum B F(t)| = %.3e" % (species, worst))
+    return worst > 1e-6
+
+
+@obligation(PID, "h", title="nonadiabatic coupling vectors: the derivative operators assembled in nac.py (overlap, exchange, Coulomb and core-attraction parts) contracted with a symmetric transition density give, for every atom and Cartesian direction, the exact derivative of sum_{mu nu} B_{mu nu} F_{mu nu} at fixed ground-state density — so the coupling vector is a gradient-type (rotation-covariant) quantity")
+def ob_h(ob):
+    from seqm.seqm_functions import nac as NAC
+    from seqm.seqm_functions.fock import fock
+    from seqm.seqm_functions.hcore import hcore
+    from .C06 import _sym_hcore_blocks
+    from .common import quiet
+
+    ob.encodes(NAC._build_nac_derivative_operators, NAC._contract_nac_density_batch, fock)
+    ob.bound("molecule O-C-H (heavy-heavy and heavy-hydrogen pairs); derivative blocks of overlap*beta, core attraction and two-electron integrals, the integrals themselves, H, one-centre parameters, the ground-state density and the symmetric transition density are free symbolic reals")
+    ob.assume("overlap finite differences and the integral-derivative kernel are recorders (the kernel itself is C01.c); oracle: forward-mode dual numbers through the real fock()", "hcore assembly convention as in C01.f: M[diag block of i] += e1b, M[diag block of j] += e2a, M[off-diagonal block] = overlap*(beta_i+beta_j)/2")
+    species = [[8, 6, 1]]
+    S.reset()
+    mol, const, nmol, molsize, n, phys, npairs, wx, ovx, e1bx, e2ax, P, B = _nac_setup(species)
+    with symbolic_factories():
+        got = _nac_code(mol, nmol, molsize, n, wx, ovx, e1bx, e2ax, P, B, lambda a: SymTensor(a))
+    got = got.a  # (nmol, 1, molsize, 3)
+    natoms = mol.Z.shape[0]
+    w = np.full((npairs, 10, 10), z3.RealVal(0), dtype=object)
+    for p in range(npairs):
+        for k in range(10 if int(mol.ni[p]) > 1 else 1):
+            for l in range(10 if int(mol.nj[p]) > 1 else 1):
+                w[p, k, l] = z3.Real("w%d_%d_%d" % (p, k, l))
+    g = {k: S.reals(k, (natoms,)) for k in ("gss", "gpp", "gsp", "gp2", "hsp")}
+    Hfull, M = _sym_hcore_blocks(nmol, molsize, phys)
+    maskd, mask = mol.maskd.tolist(), mol.mask.tolist()
+    real_atoms = torch.arange(nmol * molsize)[mol.species.reshape(-1) > 0].tolist()
+    Z0 = z3.RealVal(0)
+    for a in range(natoms):
+        for d in range(3):
+            Mt = np.full(M.shape, Z0, dtype=object)
+            wt = np.full(w.shape, Z0, dtype=object)
+            for p in range(npairs):
+                s = 1 if int(mol.idxi[p]) == a else (-1 if int(mol.idxj[p]) == a else 0)
+                if s == 0:
+                    continue
+                bi, bj, bo = maskd[int(mol.idxi[p])], maskd[int(mol.idxj[p])], mask[p]
+                for mu in range(4):
+                    for nu in range(4):
+                        Mt[bi, mu, nu] = Mt[bi, mu, nu] + s * e1bx[p, d, mu, nu]
+                        Mt[bj, mu, nu] = Mt[bj, mu, nu] + s * e2ax[p, d, mu, nu]
+                        Mt[bo, mu, nu] = Mt[bo, mu, nu] + s * ovx[p, d, mu, nu] / 2
+                wt[p] = wt[p] + s * wx[p, d]
+            S.ST.dual_n = 1
+            try:
+                mkd = np.frompyfunc(lambda v, t: Dual(v, (t,)), 2, 1)
+                MD, wD = SymTensor(mkd(M, Mt)), SymTensor(mkd(w, wt))
+                with symbolic_factories():
+                    F = fock(nmol, molsize, SymTensor(P.copy()), MD, mol.maskd, mol.mask, mol.idxi, mol.idxj, wD, torch.tensor([0]), SymTensor(g["gss"]), SymTensor(g["gpp"]), SymTensor(g["gsp"]), SymTensor(g["gp2"]), SymTensor(g["hsp"]), "AM1", None, None, None, mol.Z, None, None)
+                dS = z3.RealVal(0)
+                for i in phys[0]:
+                    for j in phys[0]:
+                        e = F.a[0, i, j]
+                        if isinstance(e, Dual):
+                            dS = dS + B[0, i, j] * e.t[0]
+            finally:
+                S.ST.dual_n = 0
+            row = real_atoms[a]
+            lab = "h:atom %d direction %d" % (a, d)
+            v, m = smt.prove(got[row // molsize, 0, row % molsize, d] == dS, [], lab, "auto", 120)
+            if v == "sat":
+                if replay_nac_operators(species):
+                    ob.violation("NAC derivative operators: the contraction for atom %d, direction %d is not the derivative of sum B F (an operator block is dropped, transposed or mis-scaled): coupling vectors are wrong and not rotation covariant" % (a, d), {"module": "harness.C17", "func": "replay_nac_operators", "args": {"species": species}})
+                    return
+                raise HarnessError("NAC operator counterexample did not reproduce (%s)" % lab)
+            ob.verdict(v, lab)
+    x, y = z3.Reals("x y")
+    expect_refuted(ob, x + y == x, [y != 0], "twin: a dropped operator block is noticed", "lra")
